@@ -77,13 +77,17 @@ Fixpoint str_ltb (a b : string) : bool :=
       let nx := nat_of_ascii x in let ny := nat_of_ascii y in
       if Nat.ltb nx ny then true else if Nat.ltb ny nx then false else str_ltb a' b'
   end.
-Definition fold_key (v : val) : string := lower (to_str v).
-Fixpoint insert_sorted (v : val) (l : list val) : list val :=
+(* the sort key: the string itself with case_sensitive=True, the case-folded string otherwise (Jinja's default) *)
+Definition sort_key (cs : bool) (v : val) : string := if cs then to_str v else lower (to_str v).
+Definition fold_key (v : val) : string := sort_key false v.
+Fixpoint insert_sorted_by (cs : bool) (v : val) (l : list val) : list val :=
   match l with
   | [] => [v]
-  | x :: r => if str_ltb (fold_key v) (fold_key x) then v :: l else x :: insert_sorted v r
+  | x :: r => if str_ltb (sort_key cs v) (sort_key cs x) then v :: l else x :: insert_sorted_by cs v r
   end.
-Definition sort_filter (l : list val) : list val := fold_left (fun acc v => insert_sorted v acc) l [].
+Definition sort_filter_by (cs : bool) (l : list val) : list val := fold_left (fun acc v => insert_sorted_by cs v acc) l [].
+Definition insert_sorted := insert_sorted_by false.
+Definition sort_filter (l : list val) : list val := sort_filter_by false l.
 
 Definition attr_of (v : val) (a : string) : val :=
   match v with
@@ -154,7 +158,8 @@ Section Eval.
           | Some (VStr a) => VList (map (fun o => attr_of o a) (as_list v))
           | _ => VUndef
           end
-        else if String.eqb name "sort" then VList (sort_filter (as_list v))
+        else if String.eqb name "sort" then
+          VList (sort_filter_by (match kw "case_sensitive" kwargs with Some c => truthy c | None => false end) (as_list v))
         else if String.eqb name "list" then VList (as_list v)
         else VUndef
     | ETest name x args =>
